@@ -46,6 +46,14 @@ type Val struct {
 	Clo   *Closure
 	Dyn   types.Type // for interface values: statically known dynamic type
 	DynV  *Val       // payload when Dyn != nil
+	// Alts: a function value that is one of several statically known closures / bound methods, depending on the path
+	// taken (phi of function values, e.g. "f := a.M1; if c { f = a.M2 }"); a call through it is split per alternative
+	Alts []AltVal
+}
+
+type AltVal struct {
+	G *Term
+	V Val
 }
 
 func tv(t *Term) Val { return Val{T: t} }
@@ -760,6 +768,35 @@ func (fr *Frame) mergePhi(phi *ssa.Phi, b *ssa.BasicBlock, in []edgeIn) Val {
 	}
 	if len(gvs) == 1 {
 		return gvs[0].v
+	}
+	// function values: keep every alternative with the guard of the edge it arrives on
+	isFn := false
+	for _, x := range gvs {
+		if x.v.Clo != nil || len(x.v.Alts) > 0 {
+			isFn = true
+		}
+	}
+	if isFn {
+		var alts []AltVal
+		unknown := false
+		for _, x := range gvs {
+			switch {
+			case len(x.v.Alts) > 0:
+				for _, a := range x.v.Alts {
+					alts = append(alts, AltVal{G: tAnd(x.g, a.G), V: a.V})
+				}
+			case x.v.Clo != nil:
+				alts = append(alts, AltVal{G: x.g, V: x.v})
+			default:
+				unknown = true
+			}
+		}
+		if unknown {
+			// a nil or unknown function value on some edge: a call through the phi is treated as a call of an unknown function
+			c.warn("phi %s of function values in %s has an unknown alternative", phi.Name(), fr.fn.Name())
+			return tv(c.fresh("fnval", SInt))
+		}
+		return Val{Alts: alts}
 	}
 	// location-valued phis are only supported when identical
 	if gvs[0].v.Loc != nil || gvs[0].v.Tuple != nil || gvs[0].v.Clo != nil {
